@@ -87,7 +87,7 @@ class List(Expression):
         if any(v is None for v in values):
             return None
         else:
-            return np.prod(values)
+            return int(np.prod(values))  # (np.prod([]) is the float 1.0)
 
     def __iter__(self):
         for c in self.children:
